@@ -535,7 +535,11 @@ static void DisasmIterator(OneChunk const* pChunk, Boolean IsData, void* pUser) 
                 memcpy(Num, pLabel + 7, l);
                 Num[l]   = '\0';
                 DataSize = strtol(Num, &pEnd, 10);
-                if (*pEnd) {
+
+                /* vectors are 1..8 bytes long (-ENTRYADDRESS); any other
+                   number comes from a -SYMBOL that merely looks like one */
+
+                if (*pEnd || (DataSize < 1) || (DataSize > 8)) {
                     DataSize = -1;
                 }
             }
